@@ -2,9 +2,9 @@
 EXTENDS Publish, Json
 P == << "alpn=h2", "port=8443" >>
 R(nm, pg, ps) == [name |-> nm, page |-> pg, params |-> ps]
-ParamLists == { <<>>, <<"alpn=h2">>, <<"alpn=h2", "ech=old">>, <<"ech=old", "alpn=h2">>, <<"ech=C1">>, <<"alpn=h2", "ech=C1", "port=8443">> }
+ParamLists == { <<>>, <<"alpn=h2">>, <<"no-default-alpn", "alpn=h3", "ech=old">>, <<"alpn=h3", "no-default-alpn">>, <<"alpn=h2", "ech=old">>, <<"ech=old", "alpn=h2">>, <<"ech=C1">>, <<"alpn=h2", "ech=C1", "port=8443">> }
 ParamLists2 == { <<"alpn=h2">>, <<"ech=old", "port=8443">> }
-RecSetsAll == { << R("a", 1, pa), R("b", 3, pb), R("c", 2, <<"alpn=h3", "ech=old">>) >> : pa \in ParamLists, pb \in ParamLists2 }
+RecSetsAll == { << R("a", 1, pa), R("b", 3, pb), R("c", 2, <<"alpn=h3", "ech=old", "no-default-alpn">>) >> : pa \in ParamLists, pb \in ParamLists2 }
               \cup { << R("a", 1, pa) >> : pa \in ParamLists } \cup { <<>> }
 T(z, n) == [zone |-> z, name |-> n]
 TLAll == { <<T("z1", "a")>>, <<T("z1", "a"), T("z1", "b")>>, <<T("z1", "m"), T("z1", "b"), T("z1", "a")>>, <<T("z1", "a"), T("z1", "a")>>,
